@@ -188,7 +188,24 @@ def run_case(case):
 
     observe()
     reopen = common.mk_rng(len(case["ops"]), case["default"], "reopen")
-    for op in case["ops"]:
+    work = list(case["ops"])
+    versions = [(smt.root_hash, dict(model))]
+    last_key = None
+    while work:
+        op = work.pop(0)
+        if last_key is not None and len(versions) > 2 and reopen.random() < 0.12:
+            # `tree.root_hash = earlier_root` on the live object (the attribute is public; the hexary and binary tries are
+            # used that way too), then a write of the key written last — whatever the object remembers from the abandoned
+            # history must not leak into the new one (seeded change C14n-set-reuses-branch-of-last-write)
+            r0, m0 = versions[reopen.randrange(len(versions) - 1)]
+            smt.root_hash = r0
+            model.clear()
+            model.update(m0)
+            res.emit("smt.setroot 0 %s" % hx(r0), "ok")
+            res.tags.add("root_hash-assigned-on-live-object")
+            observe()
+            work.insert(0, op)
+            op = ["set", last_key.hex(), (bytes([reopen.randrange(1, 256)]) * 3).hex()]
         if reopen.random() < 0.3:
             # continue through a handle re-opened with from_db over the same database and root: it must behave
             # identically (seeded change C14-from-db-drops-default was invisible while only reads went through it)
@@ -230,6 +247,9 @@ def run_case(case):
             if ret is not None and list(ret) != path:
                 res.fail("returned-hashes-wrong", "%s returned hashes that are not the updated path hashes root-to-leaf" % kind)
         observe()
+        if out == "ok":
+            last_key = k
+            versions.append((smt.root_hash, dict(model)))
         maxkeys = max(maxkeys, len(model))
     res.tags.add("ks:%d" % (ks if ks in (1, 2, 3, 32) else 0))
     res.tags.add("default:" + ("blank" if not default else "nonblank"))
